@@ -8,6 +8,7 @@ CONSTANTS
   ScalarConsts = {0, 1, 2, 3, 29, 30}
   BaseX = 2
   BaseY = 12
+  DecodeInputs <- DecodeInputsDef
 SPECIFICATION Spec
 INVARIANT AllValid
 INVARIANT ObserversAgree
